@@ -100,19 +100,23 @@ def single_preemptions(pilot, max_points=None, rng=None):
     return out
 
 
-def double_preemptions(scn, first_filter, window=60, run=None, second="preempted", second_filter=None):
+def double_preemptions(scn, first_filter, window=60, run=None, second="preempted", second_filter=None, first_roles=None):
     """Targeted two-pre-emption enumeration: a first forced switch at every
     pilot yield point accepted by first_filter(site, running_tid), then a
     second one at each of the next `window` yield points of the thread that
     was pre-empted first.  Yields switch dicts {step1: tid1, step2: tid2}."""
     o = run_scenario(scn, {"kind": "np"}, pilot=True)
     pilot = o.pilot
+    roles = {t.tid: t.role for t in o.world.sched.threads}
     finish(o)
     for entry in pilot:
         step, tids, site, cur = entry
         if not first_filter(site, cur):
             continue
         for tid in tids:
+            if first_roles is not None and roles.get(tid) not in first_roles:
+                # (first_roles: the first switch goes to threads of these roles only)
+                continue
             o2 = run_scenario(scn, {"kind": "forced", "switches": {str(step): tid}}, pilot=True)
             p2 = o2.pilot
             finish(o2)
